@@ -95,6 +95,22 @@ class C01(PairCheck):
     term_p = 0.25
     close_p = 0.05
 
+    def executions(self, tier, seed):
+        traces, metas = PairCheck.executions(self, tier, seed)
+        # the same with adaptive segment sizing switched on and transfers pipelined ahead of their ACKs
+        from harness.drivers import tcpcl_timers
+        rnd = random.Random(seed * 37 + 1)
+        n = 12 if tier != 'thorough' else 200
+        for i in range(n):
+            mru = rnd.choice([50, 500, 9000])
+            nbytes = mru * rnd.choice([1, 2, 3]) + rnd.choice([0, 1, 20])
+            nb = rnd.choice([2, 3, 4])
+            traces.append(tcpcl_timers.run_adaptive(seed * 2000 + i, mru, 100000, nbytes, nbundles=nb,
+                                                    sender_burst=rnd.choice([0, 6, 12, 30])))
+            metas.append({'source': 'adaptive-pipelined', 'peer_mru': mru, 'bundles': nb, 'bytes': nbytes})
+        self.extra_coverage['adaptive_pipelined_runs'] = n
+        return traces, metas
+
 
 class C04(PairCheck):
     prop = 'C04'
